@@ -33,7 +33,7 @@ for rnd_, c, m in [(r, c, m) for r in (1, 2, 3, 4) for c in range(1, 21) for m i
     if True:
         sid = f"C{c:02d}_{m}" if rnd_ == 1 else f"C{c:02d}_r{rnd_}_{m}"
         src = f"/tmp/out_C{c:02d}/mut{m}" if rnd_ == 1 else f"/tmp/out{rnd_}_C{c:02d}/mut{m}"
-        if not os.path.exists(src + "/patch.diff"):
+        if not os.path.exists(src + "/patch.diff") or not os.path.exists(src + "/meta.json") or (rnd_ >= 2 and sid not in conf):
             continue
         d = os.path.join(OUT, sid)
         os.makedirs(d, exist_ok=True)
